@@ -1076,4 +1076,304 @@ theorem getDerivedUnitFallback_spec (reg : Registry α) (hreg : RegistryWF reg) 
     simp [getDerivedUnitFallback, getDerivedUnit_unknown reg hreg key h1 h2]
 
 
+section Arrhenius
+variable [HasExp α]
+
+/-! ### Arrhenius rate constants -/
+
+theorem temperatureDims_wf : Dims.WF temperatureDims := rfl
+theorem temperatureDims_eq_basis : temperatureDims = Dims.basis 4 := by decide
+
+theorem temperatureUnit_spec (reg : Registry α) (hreg : RegistryWF reg) :
+    ∃ U, getDerivedUnitFallback reg "temperature" = .ok U ∧ U.WF ∧ U.dims = temperatureDims ∧
+      U.si = regProd reg temperatureDims ∧ U.si ≠ 0 := by
+  obtain ⟨hlt, h1, h2⟩ := getDerivedUnit_base reg hreg "temperature" 4 (by decide) keyIndex?_temperature
+  obtain ⟨hw, _, hsi⟩ := hreg.entry 4 hlt
+  exact ⟨reg[4], by simp [getDerivedUnitFallback, h1], hw, by rw [h2, temperatureDims_eq_basis],
+    by rw [temperatureDims_eq_basis, regProd_basis reg hreg 4 hlt], hsi⟩
+
+/-- the three unitless arguments: each is the SI value over the registry's unit of its own dimension -/
+theorem arrheniusArgs_spec (reg : Registry α) (hreg : RegistryWF reg) (A EaR T : PyVal α)
+    (hA : A.WF) (hE : EaR.WF) (hT : T.WF) (hTd : T.dims = temperatureDims) :
+    arrheniusArgs reg A EaR T =
+      .ok (A.si / regProd reg A.dims, EaR.si / regProd reg EaR.dims, T.si / regProd reg temperatureDims) := by
+  obtain ⟨UA, hUA, _⟩ := dedimArg_spec reg hreg A hA
+  obtain ⟨UE, hUE, _⟩ := dedimArg_spec reg hreg EaR hE
+  obtain ⟨U, hU, hUw, hUd, hUs, _⟩ := temperatureUnit_spec reg hreg
+  have ht : toUnitlessScalar T U = .ok (T.si / U.si) := (toUnitlessScalar_ok_iff hT hUw _).mpr ⟨by rw [hTd, hUd], rfl⟩
+  simp only [arrheniusArgs, hUA, hUE, hU, ht, hUs]
+
+/-- a temperature of the wrong dimension is refused -/
+theorem arrheniusArgs_refuses (reg : Registry α) (hreg : RegistryWF reg) (A EaR T : PyVal α)
+    (hA : A.WF) (hE : EaR.WF) (hT : T.WF) (hTd : T.dims ≠ temperatureDims) :
+    arrheniusArgs reg A EaR T = .error .valueError := by
+  obtain ⟨UA, hUA, _⟩ := dedimArg_spec reg hreg A hA
+  obtain ⟨UE, hUE, _⟩ := dedimArg_spec reg hreg EaR hE
+  obtain ⟨U, hU, hUw, hUd, hUs, _⟩ := temperatureUnit_spec reg hreg
+  have ht : toUnitlessScalar T U = .error .valueError := (toUnitlessScalar_error_iff hT hUw _).mpr ⟨by rw [hUd]; exact hTd, rfl⟩
+  simp only [arrheniusArgs, hUA, hUE, hU, ht]
+
+/-- **the unitless Arrhenius constant is the SI constant over the registry's rate-constant unit**: `Ea/R` and `T` are
+    converted with the same temperature unit, which cancels inside the exponential -/
+theorem arrheniusDedim_spec (reg : Registry α) (hreg : RegistryWF reg) (A EaR T : PyVal α) (n : ℤ)
+    (hA : A.WF) (hAd : A.dims = rateConstDims n) (hE : EaR.WF) (hEd : EaR.dims = temperatureDims)
+    (hT : T.WF) (hTd : T.dims = temperatureDims) :
+    arrheniusDedim reg A EaR T = .ok (arrheniusEval A.si EaR.si T.si / regProd reg (rateConstDims n)) := by
+  have hτ := regProd_ne_zero reg (registryWF_si_ne hreg) temperatureDims
+  simp only [arrheniusDedim, arrheniusArgs_spec reg hreg A EaR T hA hE hT hTd, hAd, hEd, arrheniusEval]
+  rw [div_div_div_cancel_right₀ hτ]
+  congr 1
+  ring
+
+theorem mapExcept_arrhenius (reg : Registry α) (hreg : RegistryWF reg) (params : List (PyVal α × PyVal α)) (T : PyVal α)
+    (rxns : List Rxn) (hT : T.WF) (hTd : T.dims = temperatureDims)
+    (hp : List.Forall₂ (fun (p : PyVal α × PyVal α) (r : Rxn) => p.1.WF ∧ p.1.dims = rateConstDims r.order ∧
+      p.2.WF ∧ p.2.dims = temperatureDims) params rxns) :
+    mapExcept (fun p : PyVal α × PyVal α => arrheniusDedim reg p.1 p.2 T) params =
+      .ok ((params.zip rxns).map fun pr => arrheniusEval pr.1.1.si pr.1.2.si T.si / regProd reg (rateConstDims pr.2.order)) := by
+  induction hp with
+  | nil => rfl
+  | @cons p r _ _ h _ ih =>
+    obtain ⟨h1, h2, h3, h4⟩ := h
+    simp only [mapExcept, arrheniusDedim_spec reg hreg p.1 p.2 T r.order h1 h2 h3 h4 hT hTd, ih, List.zip_cons_cons, List.map_cons]
+
+/-- the SI rate constants of an Arrhenius system at temperature `T` -/
+def arrheniusSI (params : List (PyVal α × PyVal α)) (T : PyVal α) : List α :=
+  params.map fun p => arrheniusEval p.1.si p.2.si T.si
+
+/-- fictitious quantities carrying the SI Arrhenius constants with the dimension of their reaction (proof device) -/
+def arrheniusQ (params : List (PyVal α × PyVal α)) (rxns : List Rxn) (T : PyVal α) : List (PyVal α) :=
+  (params.zip rxns).map fun pr => .qty ⟨arrheniusEval pr.1.1.si pr.1.2.si T.si, ⟨1, rateConstDims pr.2.order⟩⟩
+
+theorem arrheniusQ_si {R : PyVal α × PyVal α → Rxn → Prop} {params : List (PyVal α × PyVal α)} {rxns : List Rxn}
+    (h : List.Forall₂ R params rxns) (T : PyVal α) : (arrheniusQ params rxns T).map PyVal.si = arrheniusSI params T := by
+  induction h with
+  | nil => rfl
+  | cons _ _ ih =>
+    simp only [arrheniusQ, arrheniusSI, List.zip_cons_cons, List.map_cons] at ih ⊢
+    rw [ih]; simp
+
+theorem arrheniusQ_dims {R : PyVal α × PyVal α → Rxn → Prop} {params : List (PyVal α × PyVal α)} {rxns : List Rxn}
+    (h : List.Forall₂ R params rxns) (T : PyVal α) :
+    List.Forall₂ (fun (k : PyVal α) (r : Rxn) => k.dims = rateConstDims r.order) (arrheniusQ params rxns T) rxns := by
+  induction h with
+  | nil => exact List.Forall₂.nil
+  | cons _ _ ih => exact List.Forall₂.cons rfl ih
+
+theorem arrheniusQ_vals (reg : Registry α) (params : List (PyVal α × PyVal α)) (rxns : List Rxn) (T : PyVal α) :
+    (params.zip rxns).map (fun pr => arrheniusEval pr.1.1.si pr.1.2.si T.si / regProd reg (rateConstDims pr.2.order)) =
+      (arrheniusQ params rxns T).map fun k => k.si / regProd reg k.dims := by
+  simp [arrheniusQ, List.map_map, Function.comp]
+
+theorem odeRhsArrhenius_spec (reg : Registry α) (hreg : RegistryWF reg) (params : List (PyVal α × PyVal α))
+    (T : PyVal α) (rxns : List Rxn) (y : List (PyVal α)) (ns : ℕ) (hT : T.WF) (hTd : T.dims = temperatureDims)
+    (hp : List.Forall₂ (fun (p : PyVal α × PyVal α) (r : Rxn) => p.1.WF ∧ p.1.dims = rateConstDims r.order ∧
+      p.2.WF ∧ p.2.dims = temperatureDims) params rxns)
+    (hy : ∀ c ∈ y, c.WF ∧ c.dims = concDims) :
+    odeRhsArrhenius reg params T rxns y ns =
+      (plainRhs (arrheniusSI params T) rxns (y.map PyVal.si) ns).map
+        (List.map (· * (regProd reg timeDims / regProd reg concDims))) := by
+  obtain ⟨C, hC, hCw, hCd, hCs, _⟩ := concUnit_spec reg hreg
+  obtain ⟨Tu, hTu, _⟩ := timeUnit_spec reg hreg
+  obtain ⟨U, hU, _⟩ := temperatureUnit_spec reg hreg
+  have hou : mkOdeUnits reg ["temperature"] true [] = .ok ⟨[U], Tu, C⟩ := by
+    simp [mkOdeUnits, mapExcept, hU, hC, hTu]
+  have hys : toUnitlessFlat y C = .ok (y.map fun a => a.si / C.si) :=
+    (toUnitlessFlat_spec y C (fun a ha => (hy a ha).1) hCw).1 (fun a ha => by rw [(hy a ha).2, hCd])
+  have hmap : (y.map fun a => a.si / C.si) = (y.map PyVal.si).map (· / regProd reg concDims) := by
+    simp [List.map_map, hCs]
+  simp only [odeRhsArrhenius, hou, mapExcept_arrhenius reg hreg params T rxns hT hTd hp, toArraysY, hys, hmap,
+    arrheniusQ_vals reg params rxns T]
+  rw [plainRhs_scale reg hreg _ rxns (arrheniusQ_dims hp T) _ ns, arrheniusQ_si hp T]
+
+
+end Arrhenius
+
+/-! ### when `as_reactions` succeeds -/
+
+theorem asReactions_ok_iff (K : PyVal α) (kf kb : Option (PyVal α)) (nf nb : ℤ) (units : Bool) (p : PyVal α × PyVal α) :
+    asReactions K kf kb nf nb units = .ok p ↔
+      ∃ c0, standardConc kf kb units = .ok c0 ∧ ratePair K kf kb nf nb c0 = .ok p ∧
+        reactionCheck p.1 nf = .ok () ∧ reactionCheck p.2 nb = .ok () := by
+  constructor
+  · intro h
+    unfold asReactions at h
+    cases hc : standardConc kf kb units with
+    | error e => simp only [hc] at h; cases h
+    | ok c0 =>
+      simp only [hc] at h
+      cases hp : ratePair K kf kb nf nb c0 with
+      | error e => simp only [hp] at h; cases h
+      | ok q =>
+        simp only [hp, checkPair] at h
+        cases h1 : reactionCheck q.1 nf with
+        | error e => simp only [h1] at h; cases h
+        | ok u =>
+          simp only [h1] at h
+          cases h2 : reactionCheck q.2 nb with
+          | error e => simp only [h2] at h; cases h
+          | ok u' =>
+            simp only [h2] at h
+            cases h
+            exact ⟨c0, rfl, hp, h1, h2⟩
+  · rintro ⟨c0, hc, hp, h1, h2⟩
+    unfold asReactions
+    simp only [hc, hp, checkPair, h1, h2]
+
+theorem asReactions_needs_exactly_one (K : PyVal α) (kf kb : Option (PyVal α)) (nf nb : ℤ) (units : Bool)
+    (h : kf.isSome = kb.isSome) (p : PyVal α × PyVal α) : asReactions K kf kb nf nb units ≠ .ok p := by
+  intro hp
+  obtain ⟨c0, _, hr, _⟩ := (asReactions_ok_iff K kf kb nf nb units p).mp hp
+  cases kf <;> cases kb <;> simp_all [ratePair]
+
+
+/-! ### unitless constants in general -/
+
+/-- fictitious quantities carrying given SI constants with the dimension of their reaction (proof device) -/
+def fictQ (ksi : List α) (rxns : List Rxn) : List (PyVal α) :=
+  (ksi.zip rxns).map fun kr => .qty ⟨kr.1, ⟨1, rateConstDims kr.2.order⟩⟩
+
+theorem fictQ_si {R : α → Rxn → Prop} {ksi : List α} {rxns : List Rxn} (h : List.Forall₂ R ksi rxns) :
+    (fictQ ksi rxns).map PyVal.si = ksi := by
+  induction h with
+  | nil => rfl
+  | cons _ _ ih =>
+    simp only [fictQ, List.zip_cons_cons, List.map_cons] at ih ⊢
+    rw [ih]; simp
+
+theorem fictQ_dims {R : α → Rxn → Prop} {ksi : List α} {rxns : List Rxn} (h : List.Forall₂ R ksi rxns) :
+    List.Forall₂ (fun (k : PyVal α) (r : Rxn) => k.dims = rateConstDims r.order) (fictQ ksi rxns) rxns := by
+  induction h with
+  | nil => exact List.Forall₂.nil
+  | cons _ _ ih => exact List.Forall₂.cons rfl ih
+
+theorem fictQ_vals (reg : Registry α) (ksi : List α) (rxns : List Rxn) :
+    (ksi.zip rxns).map (fun kr => kr.1 / regProd reg (rateConstDims kr.2.order)) =
+      (fictQ ksi rxns).map fun k => k.si / regProd reg k.dims := by
+  simp [fictQ, List.map_map, Function.comp]
+
+/-- whatever produced them: unitless constants of the form `k_SI / (registry unit of conc^(1−order)/time)` give the plain
+    right-hand side on the SI constants, times `time_unit / conc_unit` -/
+theorem odeRhsUnitless_spec (reg : Registry α) (hreg : RegistryWF reg) (ksi : List α) (rxns : List Rxn)
+    (y : List (PyVal α)) (ns : ℕ) (hlen : ksi.length = rxns.length) (hy : ∀ c ∈ y, c.WF ∧ c.dims = concDims) :
+    odeRhsUnitless reg ((ksi.zip rxns).map fun kr => kr.1 / regProd reg (rateConstDims kr.2.order)) rxns y ns =
+      (plainRhs ksi rxns (y.map PyVal.si) ns).map (List.map (· * (regProd reg timeDims / regProd reg concDims))) := by
+  obtain ⟨C, T, hou, ⟨_, hCw, hCd, hCs, _⟩, _⟩ := mkOdeUnits_plain reg hreg
+  have hys : toUnitlessFlat y C = .ok (y.map fun a => a.si / C.si) :=
+    (toUnitlessFlat_spec y C (fun a ha => (hy a ha).1) hCw).1 (fun a ha => by rw [(hy a ha).2, hCd])
+  have hmap : (y.map fun a => a.si / C.si) = (y.map PyVal.si).map (· / regProd reg concDims) := by
+    simp [List.map_map, hCs]
+  have hF : List.Forall₂ (fun (_ : α) (_ : Rxn) => True) ksi rxns :=
+    List.forall₂_iff_zip.mpr ⟨hlen, fun _ => trivial⟩
+  simp only [odeRhsUnitless, hou, toArraysY, hys, hmap, fictQ_vals reg ksi rxns]
+  rw [plainRhs_scale reg hreg _ rxns (fictQ_dims hF) _ ns, fictQ_si hF]
+
+/-! ### Eyring -/
+section Eyring
+variable [HasExp α]
+
+/-- dimension of Eyring's first argument as `Eyring.__call__` uses it: per time per temperature -/
+def eyringPrefDims : Dims := (Dims.smul (-1) timeDims).sub temperatureDims
+
+theorem eyringPrefDims_eq : eyringPrefDims = [0, 0, -1, 0, -1, 0, 0] := by decide
+
+theorem regProd_eyringPref (reg : Registry α) (hreg : RegistryWF reg) :
+    regProd reg eyringPrefDims = (regProd reg timeDims)⁻¹ / regProd reg temperatureDims := by
+  rw [eyringPrefDims, regProd_sub reg (registryWF_si_ne hreg) _ _ (len_eq_of_wf (Dims.smul_wf _ timeDims_wf) temperatureDims_wf),
+    regProd_smul, zpow_neg_one]
+
+theorem eyringArgs_spec (reg : Registry α) (hreg : RegistryWF reg) (c0 c1 conc0 T : PyVal α)
+    (h0 : c0.WF) (h1 : c1.WF) (h2 : conc0.WF) (hT : T.WF) (hTd : T.dims = temperatureDims) :
+    eyringArgs reg c0 c1 conc0 T = .ok (c0.si / regProd reg c0.dims, c1.si / regProd reg c1.dims,
+      conc0.si / regProd reg conc0.dims, T.si / regProd reg temperatureDims) := by
+  obtain ⟨_, hU0, _⟩ := dedimArg_spec reg hreg c0 h0
+  obtain ⟨_, hU1, _⟩ := dedimArg_spec reg hreg c1 h1
+  obtain ⟨_, hU2, _⟩ := dedimArg_spec reg hreg conc0 h2
+  obtain ⟨U, hU, hUw, hUd, hUs, _⟩ := temperatureUnit_spec reg hreg
+  have ht : toUnitlessScalar T U = .ok (T.si / U.si) := (toUnitlessScalar_ok_iff hT hUw _).mpr ⟨by rw [hTd, hUd], rfl⟩
+  simp only [eyringArgs, hU0, hU1, hU2, hU, ht, hUs]
+
+theorem eyringArgs_refuses (reg : Registry α) (hreg : RegistryWF reg) (c0 c1 conc0 T : PyVal α)
+    (h0 : c0.WF) (h1 : c1.WF) (h2 : conc0.WF) (hT : T.WF) (hTd : T.dims ≠ temperatureDims) :
+    eyringArgs reg c0 c1 conc0 T = .error .valueError := by
+  obtain ⟨_, hU0, _⟩ := dedimArg_spec reg hreg c0 h0
+  obtain ⟨_, hU1, _⟩ := dedimArg_spec reg hreg c1 h1
+  obtain ⟨_, hU2, _⟩ := dedimArg_spec reg hreg conc0 h2
+  obtain ⟨U, hU, hUw, hUd, hUs, _⟩ := temperatureUnit_spec reg hreg
+  have ht : toUnitlessScalar T U = .error .valueError := (toUnitlessScalar_error_iff hT hUw _).mpr ⟨by rw [hUd]; exact hTd, rfl⟩
+  simp only [eyringArgs, hU0, hU1, hU2, hU, ht]
+
+theorem eyringDedim_spec (reg : Registry α) (hreg : RegistryWF reg) (c0 c1 conc0 T : PyVal α) (n : ℤ)
+    (h0 : c0.WF) (h0d : c0.dims = eyringPrefDims) (h1 : c1.WF) (h1d : c1.dims = temperatureDims)
+    (h2 : conc0.WF) (h2d : conc0.dims = concDims) (hT : T.WF) (hTd : T.dims = temperatureDims) :
+    eyringDedim reg c0 c1 conc0 T n =
+      .ok (eyringEval c0.si c1.si conc0.si T.si n / regProd reg (rateConstDims n)) := by
+  have hτ := regProd_ne_zero reg (registryWF_si_ne hreg) temperatureDims
+  have hC := regProd_ne_zero reg (registryWF_si_ne hreg) concDims
+  have hS := regProd_ne_zero reg (registryWF_si_ne hreg) timeDims
+  simp only [eyringDedim, eyringArgs_spec reg hreg c0 c1 conc0 T h0 h1 h2 hT hTd, h0d, h1d, h2d, eyringEval,
+    regProd_eyringPref reg hreg, regProd_rateConst reg hreg, zpow_eq, div_zpow]
+  rw [div_div_div_cancel_right₀ hτ]
+  congr 1
+  have hCz : regProd reg concDims ^ (1 - n) ≠ 0 := zpow_ne_zero _ hC
+  field_simp
+
+end Eyring
+
+/-! ### Radiolytic -/
+
+def yieldDims : Dims := [-2, -1, 2, 0, 0, 0, 1]
+def densityDims : Dims := [-3, 1, 0, 0, 0, 0, 0]
+def doserateDims : Dims := [2, 0, -3, 0, 0, 0, 0]
+
+theorem radiolytic_dims_sum : yieldDims.add (densityDims.add doserateDims) = rateConstDims 0 := by
+  rw [rateConstDims_eq]; decide
+
+theorem densityUnit_spec (reg : Registry α) (hreg : RegistryWF reg) :
+    ∃ U, getDerivedUnitFallback reg "density" = .ok U ∧ U.WF ∧ U.dims = densityDims ∧ U.si = regProd reg densityDims ∧ U.si ≠ 0 :=
+  (getDerivedUnitFallback_spec reg hreg "density").1 densityDims (by decide)
+
+theorem doserateUnit_spec (reg : Registry α) (hreg : RegistryWF reg) :
+    ∃ U, getDerivedUnitFallback reg "doserate" = .ok U ∧ U.WF ∧ U.dims = doserateDims ∧ U.si = regProd reg doserateDims ∧ U.si ≠ 0 :=
+  (getDerivedUnitFallback_spec reg hreg "doserate").1 doserateDims (by decide)
+
+theorem radiolyticArgs_spec (reg : Registry α) (hreg : RegistryWF reg) (g rho D : PyVal α)
+    (hg : g.WF) (hr : rho.WF) (hrd : rho.dims = densityDims) (hD : D.WF) (hDd : D.dims = doserateDims) :
+    radiolyticArgs reg g rho D =
+      .ok (g.si / regProd reg g.dims, rho.si / regProd reg densityDims, D.si / regProd reg doserateDims) := by
+  obtain ⟨_, hUg, _⟩ := dedimArg_spec reg hreg g hg
+  obtain ⟨Ur, hUr, hUrw, hUrd, hUrs, _⟩ := densityUnit_spec reg hreg
+  obtain ⟨Ud, hUd, hUdw, hUdd, hUds, _⟩ := doserateUnit_spec reg hreg
+  have h1 : toUnitlessScalar rho Ur = .ok (rho.si / Ur.si) := (toUnitlessScalar_ok_iff hr hUrw _).mpr ⟨by rw [hrd, hUrd], rfl⟩
+  have h2 : toUnitlessScalar D Ud = .ok (D.si / Ud.si) := (toUnitlessScalar_ok_iff hD hUdw _).mpr ⟨by rw [hDd, hUdd], rfl⟩
+  simp only [radiolyticArgs, hUg, hUr, hUd, h1, h2, hUrs, hUds]
+
+theorem radiolyticArgs_refuses (reg : Registry α) (hreg : RegistryWF reg) (g rho D : PyVal α)
+    (hg : g.WF) (hr : rho.WF) (hD : D.WF) (hbad : rho.dims ≠ densityDims ∨ (rho.dims = densityDims ∧ D.dims ≠ doserateDims)) :
+    radiolyticArgs reg g rho D = .error .valueError := by
+  obtain ⟨_, hUg, _⟩ := dedimArg_spec reg hreg g hg
+  obtain ⟨Ur, hUr, hUrw, hUrd, hUrs, _⟩ := densityUnit_spec reg hreg
+  obtain ⟨Ud, hUd, hUdw, hUdd, hUds, _⟩ := doserateUnit_spec reg hreg
+  rcases hbad with hb | ⟨hrd, hb⟩
+  · have h1 : toUnitlessScalar rho Ur = .error .valueError := (toUnitlessScalar_error_iff hr hUrw _).mpr ⟨by rw [hUrd]; exact hb, rfl⟩
+    simp only [radiolyticArgs, hUg, hUr, hUd, h1]
+  · have h1 : toUnitlessScalar rho Ur = .ok (rho.si / Ur.si) := (toUnitlessScalar_ok_iff hr hUrw _).mpr ⟨by rw [hrd, hUrd], rfl⟩
+    have h2 : toUnitlessScalar D Ud = .error .valueError := (toUnitlessScalar_error_iff hD hUdw _).mpr ⟨by rw [hUdd]; exact hb, rfl⟩
+    simp only [radiolyticArgs, hUg, hUr, hUd, h1, h2]
+
+theorem radiolyticDedim_spec (reg : Registry α) (hreg : RegistryWF reg) (g rho D : PyVal α)
+    (hg : g.WF) (hgd : g.dims = yieldDims) (hr : rho.WF) (hrd : rho.dims = densityDims) (hD : D.WF) (hDd : D.dims = doserateDims) :
+    radiolyticDedim reg g rho D = .ok (radiolyticEval g.si rho.si D.si / regProd reg (rateConstDims 0)) := by
+  have hne := registryWF_si_ne hreg
+  have hsum : regProd reg (rateConstDims 0) = regProd reg yieldDims * (regProd reg densityDims * regProd reg doserateDims) := by
+    rw [← radiolytic_dims_sum, regProd_add reg hne yieldDims (densityDims.add doserateDims) (by decide),
+      regProd_add reg hne densityDims doserateDims (by decide)]
+  have h1 := regProd_ne_zero reg hne yieldDims
+  have h2 := regProd_ne_zero reg hne densityDims
+  have h3 := regProd_ne_zero reg hne doserateDims
+  simp only [radiolyticDedim, radiolyticArgs_spec reg hreg g rho D hg hr hrd hD hDd, hgd, radiolyticEval, hsum]
+  congr 1
+  field_simp
+
+
 end ChemModel.KinUnits
